@@ -362,6 +362,16 @@ def check_join_drain(ctx):
                       f'{f.short} joins the child process while the result pipe `{chan}` is only read by {gr.short} once the child is dead: a child sending a result '
                       '(or user_state) larger than the pipe buffer blocks in send until the parent reads, the parent reads only after the child exits - wait() never succeeds',
                       where=loc(f, joins[0]))
+    # the backend sends its result and closes: the close must not be abortive (SO_LINGER on, timeout 0 discards what is still in the send buffer)
+    rb = P.cls('RemoteWorker').methods['_run_backend']
+    lingers = [c for c in calls_in(rb.node) if last_attr(c) == 'set_linger' and c.args and norm(c.args[0]) == 'self._socket']
+    for c in lingers:
+        en = c.args[1] if len(c.args) > 1 else None
+        to = c.args[2] if len(c.args) > 2 else None
+        abortive = isinstance(en, ast.Constant) and bool(en.value) and isinstance(to, ast.Constant) and to.value == 0
+        ctx.check('R5', 'RemoteWorker._run_backend: the socket the result is sent on is not closed abortively', not abortive, 'RemoteWorker._run_backend', f'abortive-close:{norm(c)}',
+                  f'`{norm(c)}` makes the close after the final send abortive: data still in the send buffer is discarded and the peer gets a reset - results larger than what the '
+                  'receiver has already read are lost (has_error True, error None) on any link slower than loopback', where=loc(rb, c))
     # remote kinds: the data socket is read concurrently by the frontend thread
     RW = P.cls('RemoteWorker')
     st = RW.methods['_start']
